@@ -180,7 +180,7 @@ static int run_call(const jv *act, cres *r, char *why, size_t wn)
     } else if (!strcmp(a, "AddItemReferenceToObject")) { char *k = K_(A(2)); WIN(4); RBOOL(cJSON_AddItemReferenceToObject(N_(A(1)), k, N_(A(3))));
     } else if (!strcmp(a, "AddNewToObject")) {
         cJSON *p = N_(A(1)); char *k = K_(A(2)); int kc = kind_code(A(3)->s); char *s = K_(A(4)); double d = (double)jv_int(A(5)); WIN(6);
-        switch (kc) { case cJSON_NULL: RPTR(cJSON_AddNullToObject(p, k)); break; case cJSON_True: if (VD.cases & 1) RPTR(cJSON_AddTrueToObject(p, k)); else RPTR(cJSON_AddBoolToObject(p, k, vb_truthy(1, (unsigned long)VD.cases >> 1))); break;
+        switch (kc) { case cJSON_NULL: RPTR(cJSON_AddNullToObject(p, k)); break; case cJSON_True: if (vd_salt() & 1) RPTR(cJSON_AddTrueToObject(p, k)); else RPTR(cJSON_AddBoolToObject(p, k, vb_truthy(1, vd_salt() >> 1))); break;
             case cJSON_False: RPTR(cJSON_AddBoolToObject(p, k, 0)); break; case cJSON_Number: RPTR(cJSON_AddNumberToObject(p, k, d)); break;
             case cJSON_String: RPTR(cJSON_AddStringToObject(p, k, s)); break; case cJSON_Raw: RPTR(cJSON_AddRawToObject(p, k, s)); break;
             case cJSON_Array: RPTR(cJSON_AddArrayToObject(p, k)); break; case cJSON_Object: RPTR(cJSON_AddObjectToObject(p, k)); break;
@@ -213,7 +213,7 @@ static int run_call(const jv *act, cres *r, char *why, size_t wn)
         int cnt = (int)jv_int(A(1)); int isnull = (int)jv_int(A(2)); const char *strs[8]; size_t k; const jv *v = A(3);
         for (k = 0; k < 8 && v && k < v->n; k++) strs[k] = K_(v->e[k]);
         WIN(4); RPTR(cJSON_CreateStringArray(isnull ? NULL : strs, cnt));
-    } else if (!strcmp(a, "Duplicate")) { WIN(3); RPTR(cJSON_Duplicate(N_(A(1)), (cJSON_bool)vb_truthy((int)jv_int(A(2)), (unsigned long)VD.cases)));
+    } else if (!strcmp(a, "Duplicate")) { WIN(3); RPTR(cJSON_Duplicate(N_(A(1)), (cJSON_bool)vb_truthy((int)jv_int(A(2)), vd_salt())));
     } else if (!strcmp(a, "AddItemToObjectAlias")) { cJSON *it = N_(A(2)); WIN(3); RBOOL(cJSON_AddItemToObject(N_(A(1)), it->string, it));
     } else if (!strcmp(a, "ReplaceItemInObjectAlias")) { cJSON *it = N_(A(2)); WIN(4);
         if (jv_int(A(3))) RBOOL(cJSON_ReplaceItemInObjectCaseSensitive(N_(A(1)), it->string, it)); else RBOOL(cJSON_ReplaceItemInObject(N_(A(1)), it->string, it));
